@@ -93,6 +93,22 @@ CHECKS = {
         "conditions and the two en-passant conditions; the occupancy loop is wired colour->set, cell->pieces; the hash is the from-scratch "
         "hash of the normalised board. The loop's arithmetic and idempotence are not evaluated separately.",
    note=TB + "count_ones(white/black/kings) are abstract inputs; their relation to the cells is the wiring rule V3."),
+ "C02": dict(cat="other", ref="DESIGN.md §3 C02",
+   technique="path classification of every Make::make_raw (certification of the unchecked make, rollback), certified-producer rule, writer ownership, abstract-board make rules",
+   text="Static: on every path of every Make implementation an Ok result has exactly one unchecked make of a certified move (semilegal on "
+        "that board + king test, or Ok payload of a legal producer, or unsafe constructor contract) and returns that move with its undo; "
+        "every Err path left the board untouched or rolled back with the same pair; SAN conversion returns only validated or "
+        "LegalFilter-searched moves; Board fields have two owning modules and unsafe API stays unsafe; the made position is per abstract "
+        "case what the rules prescribe with rights re-examined (shared with C03). Validity of the result then rests on C01/C03; panic "
+        "freedom of the parsers is C12.",
+   note=TB + "The validity of resulting positions is not proved independently of C01/C03/C05."),
+ "C09": dict(cat="other", ref="DESIGN.md §3 C09",
+   technique="path rules on SAN conversion (validated or filter-searched results only); exhaustive tabulation of searcher/detector tables",
+   text="Static: parse soundness - san::Data::into_move returns Ok(mv) only after mv.validate(b) or from a searcher fed once by the "
+        "legality-filtered candidate generators; hints honoured (mask for all 81 hint combinations, source filter, Empty/Found/Ambiguity); "
+        "formatting tables - minimal disambiguation over the 8 flag combinations, flags only from other legal candidates of the same piece "
+        "and destination, '+'/'#' from the successor position, capture flag. Text-level round trip and 'standard notation' are not decided.",
+   note=TB + "Letter tables are checked under C12 (alphabets)."),
 }
 
 NOT_YET = {}
